@@ -253,6 +253,23 @@ def run_case(case):
                         viols.append(_viol("corruption-accepted",
                                            f"{name}{key}: {what} corruption {bad} as {direction} (reverse={reverse}) "
                                            f"was accepted and mapped to {res[0].tolist()}"))
+            # the whole entry of this shell type missing from the source or the target conventions (a table copied with one key
+            # dropped, a basis carrying shells its conventions do not cover): nothing says how to order these functions
+            other_key = next((kk for kk in table if kk != key), None)
+            for direction in ("source", "target"):
+                for reverse in (False, True):
+                    full = {key: list(labels)}
+                    lacking = {} if other_key is None else {other_key: list(table[other_key])}
+                    c1, c2 = (lacking, full) if direction == "source" else (full, lacking)
+                    ncorr += 1
+                    counters["convert_calls"] += 1
+                    try:
+                        res = _convert([sh], c1, c2, reverse)
+                    except Exception:
+                        counters["rejections"] = counters.get("rejections", 0) + 1
+                        continue
+                    viols.append(_viol("corruption-accepted", f"{name}{key}: conventions without an entry for this shell type given as "
+                                                              f"{direction} (reverse={reverse}) were accepted and mapped to {res[0].tolist()}"))
             feats.append(f"corrupt:{name}:{l}{k}")
         counters["comparisons"] = ncorr
     elif kind == "random":
